@@ -97,6 +97,11 @@ d=$(mk H3)
 edit "$d/stats/linearhist.go" 's.replace("\tif bin < 0 {\n\t\th.low++\n\t} else if bin >= len(h.bins) {\n\t\th.high++\n\t} else {\n\t\th.bins[bin]++\n\t}", "\tif n := len(h.bins); 0 <= bin && bin < n {\n\t\th.bins[bin] += 1\n\t} else if bin >= n {\n\t\th.high++\n\t} else {\n\t\th.low++\n\t}")'
 expect H3 "$d" C14 ok
 
+echo "== H4 harmless: hypergeometric Mean/Variance with the integer products reordered"
+d=$(mk H4)
+edit "$d/stats/hypergdist.go" 's.replace("float64(d.Draws*d.K*(d.N-d.K)*(d.N-d.Draws)) /\n\t\tfloat64(d.N*d.N*(d.N-1))", "float64((d.N-d.K)*d.K*(d.N-d.Draws)*d.Draws) /\n\t\tfloat64((d.N-1)*d.N*d.N)").replace("float64(d.Draws*d.K) / float64(d.N)", "float64(d.K*d.Draws) / float64(d.N)")'
+expect H4 "$d" C06 ok
+
 echo "== B1 breaking: Combine drops the delta*delta term"
 d=$(mk B1)
 edit "$d/stats/stream.go" 's.replace("vM2 := s.vM2 + o.vM2 + delta*delta*float64(s.Count)*float64(o.Count)/float64(count)", "vM2 := s.vM2 + o.vM2")'
@@ -122,6 +127,11 @@ echo "== B5 breaking: rank walk of HistogramQuantile tests count > goal instead 
 d=$(mk B5)
 edit "$d/stats/hist.go" 's.replace("if count >= goal {", "if count > goal {")'
 expect B5 "$d" C14 tie_failed tie_HistogramQuantile
+
+echo "== B6 breaking: hypergeometric Variance with N-1 replaced by N in the denominator"
+d=$(mk B6)
+edit "$d/stats/hypergdist.go" 's.replace("float64(d.N*d.N*(d.N-1))", "float64(d.N*d.N*d.N)")'
+expect B6 "$d" C06 tie_failed tie_hg_Variance
 
 echo "== U1 untranslatable: Weight computed through a map (same results)"
 d=$(mk U1)
